@@ -175,3 +175,19 @@ Proof.
     + intro u. destruct u as [|u]; [cbn [nth]; auto|apply PW].
     + change (length (a :: ups)) with (S (length ups)). rewrite usum_shift. cbn [nth lsum]. nia.
 Qed.
+
+Lemma claim_uptimes_byup_nonneg : forall d id age isc ups outs uts ups' col forf byup,
+  claim_uptimes ups outs uts id age isc = Some (ups', col, forf, byup) -> forall u, 0 <= pr_sel d (nth u byup (0, 0)).
+Proof.
+  intros d id age isc. induction ups as [|a ups IH]; intros outs uts ups' col forf byup H; destruct outs as [|o outs]; destruct uts as [|ut uts]; simpl in H; try discriminate H.
+  - inversion H; subst. intro u. destruct u; destruct d; simpl; lia.
+  - destruct (claim_uptimes ups outs uts id age isc) as [[[[ar col0] forf0] byup0]|] eqn:ER; [|discriminate H]. cbv beta iota in H.
+    pose proof (IH _ _ _ _ _ _ ER) as B0.
+    destruct (acc_has a id) eqn:EH.
+    + destruct (update_accum_and_claim a id o) as [[[a' scaled] dust]|] eqn:EU; [|discriminate H]. cbv beta iota in H.
+      destruct (scale_down2 scaled isc) as [coins|]; [|discriminate H]. cbv beta iota in H.
+      unfold acc_has in EH. destruct (acc_get a id) as [r|] eqn:R; [|discriminate EH].
+      destruct (uac_full _ _ _ _ _ _ _ EU R) as [_ [_ [_ [_ HD]]]]. destruct (HD d) as [_ [_ [CO0 _]]].
+      destruct (age <? ut); inversion H; subst; intro u; destruct u as [|u]; cbn [nth]; try apply B0; try exact CO0; destruct d; simpl; lia.
+    + inversion H; subst. intro u. destruct u as [|u]; cbn [nth]; [destruct d; simpl; lia|apply B0].
+Qed.
